@@ -37,6 +37,10 @@ type concCfg struct {
 	Directed   string `json:"directed,omitempty"`
 	BodyYield  int    `json:"body_yield"` // 0 none, 1 gosched, 2 short sleeps
 	ManyGroups bool   `json:"many_groups"`
+	// DirtyStop: between cycles Shutdown is called while all workers are busy and
+	// callbacks are still queued on the hot groups (they may be dropped); the
+	// next cycle must be unaffected by what was left behind.
+	DirtyStop bool `json:"dirty_stop"`
 }
 
 type concSub struct {
@@ -52,6 +56,7 @@ type concSub struct {
 	SeqRet   int64  `json:"seq_ret"`
 	Err      string `json:"err,omitempty"`
 	Global   int64  `json:"global,omitempty"` // baton order
+	MayDrop  bool   `json:"may_drop,omitempty"` // submitted right before Shutdown began with all workers busy
 }
 
 type concExec struct {
@@ -531,11 +536,66 @@ func (e *concEngine) run() bool {
 		if !e.runCycle() {
 			return false
 		}
+		if cfg.DirtyStop && cy < cfg.Cycles-1 {
+			if !e.dirtyStop() {
+				return false
+			}
+			continue
+		}
 		if err := e.rig.stop(); err != nil {
 			e.c.Inconclusive("stop: " + err.Error())
 			return false
 		}
 	}
+	return true
+}
+
+// dirtyStop shuts the service down while every worker is busy and callbacks
+// are queued, unreached, on the hot groups.
+func (e *concEngine) dirtyStop() bool {
+	svc := e.rig.S
+	release := make(chan struct{})
+	var started sync.WaitGroup
+	for i := 0; i < e.cfg.Workers; i++ {
+		started.Add(1)
+		svc.WithGroup(fmt.Sprintf("blocker-%d", i), func(*res.Service) { started.Done(); <-release })
+	}
+	ok := make(chan struct{})
+	go func() { started.Wait(); close(ok) }()
+	if !waitCh(ok, 20*time.Second) {
+		close(release)
+		e.c.Inconclusive("blocking callbacks did not occupy all workers")
+		return false
+	}
+	r := newRand(core.SubSeed(e.c.Batch.Seed, fmt.Sprintf("%s/dirty%d", e.c.Batch.Name, atomic.LoadInt32(&e.cycle))))
+	for n := 0; n < 12; n++ {
+		rid := e.randRID(r)
+		s := e.newSub(-3, n, "with", rid)
+		s.MayDrop = true
+		if err := svc.With(rid, func(res.Resource) { e.body(s.ID, s.Group, s.Parallel) }); err != nil {
+			s.Err = err.Error()
+		}
+	}
+	before := sched.Count("close.flagged")
+	ret := make(chan error, 1)
+	go func() { ret <- svc.Shutdown() }()
+	for i := 0; i < 20000 && sched.Count("close.flagged") == before; i++ {
+		time.Sleep(100 * time.Microsecond)
+	}
+	close(release)
+	select {
+	case <-ret:
+	case <-time.After(30 * time.Second):
+		e.c.Inconclusive("Shutdown did not return after a dirty stop")
+		return false
+	}
+	select {
+	case <-e.rig.serveRet:
+	case <-time.After(20 * time.Second):
+		e.c.Inconclusive("Serve did not return after a dirty stop")
+		return false
+	}
+	e.c.Obs("dirty_stops", 1)
 	return true
 }
 
@@ -565,6 +625,8 @@ func (e *concEngine) checkExactlyOnce() {
 			}
 		case s.Err != "":
 			c.Violation("C02/with-error-on-match:"+s.Kind, fmt.Sprintf("%s on %q failed: %s", s.Kind, s.RID, s.Err), s)
+		case n == 0 && s.MayDrop:
+			c.Obs("dropped_at_shutdown", 1)
 		case n == 0:
 			c.Violation("C02/lost:"+s.Kind, fmt.Sprintf("callback %s (%s on %q, group %q) was accepted while the service was started but never ran", s.ID, s.Kind, s.RID, s.Group), map[string]interface{}{"submission": s, "config": e.cfg})
 		case n > 1:
